@@ -1,4 +1,5 @@
 import PyatvModel.C04.Dns.Lemmas
+import PyatvModel.Gen.C04DnsConsts
 /-
 C04 (DNS part) — "every value the library can encode with ... DNS messages and names ... decodes
 back to an equal value; the bytes produced and accepted agree with the documented wire format".
@@ -124,6 +125,13 @@ theorem message_roundtrip (m : Msg) (Y : Bytes) (h : MsgOk m) :
 theorem header_counts (m : PackIn) :
     ((pack m).drop 4).take 8 = u16 m.qd.length ++ u16 m.an.length ++ u16 m.ns.length ++ u16 m.ar.length := by
   simp [pack, packHeader, u16]
+
+/-! ## tie A: the numbers the model dispatches on are the ones the code uses now
+     (Gen/C04DnsConsts.lean is regenerated from pyatv.support.dns on every check) -/
+
+example : Gen.C04Dns.qtA = 1 ∧ Gen.C04Dns.qtPTR = 12 ∧ Gen.C04Dns.qtTXT = 16 ∧ Gen.C04Dns.qtSRV = 33 ∧
+    Gen.C04Dns.qtMembers = [1, 12, 16, 33, 255] ∧ Gen.C04Dns.maxLabel = 63 ∧ Gen.C04Dns.pointerMask = 63 := by
+  decide
 
 /-! ## non-vacuity and boundaries -/
 
